@@ -2,6 +2,7 @@
 
 Suites (request -> one line, see coq/Model/SuitePeriod.v and harness/suite_period.go):
   dates     cal-date <y> <m> <d>       weekday, ISO year+week, quarter, PlusDays, Period(), Previous().Period(), Hash()
+            cal-basic <y> <m> <d>      the part of cal-date that cannot panic, for the dates carrying known finding K4
   plus      cal-plus <y> <m> <d> <n>   Date.PlusDays(n)
   patterns  period-pattern <hex>       period.NewPeriodFromPatternString
 
@@ -126,14 +127,17 @@ def parse_period_tok(t):
 def date_problems(req, out, record_hashes=True):
     """list of (kind_of_problem, text); kind 'edge-crash' = the code panics where the true period is not
     representable in 0000..9999 (K4), anything else is a plain violation"""
-    _, ys, ms, ds = req.split(" ")
+    cmd, ys, ms, ds = req.split(" ")
     y, m, d = int(ys), int(ms), int(ds)
     valid = 0 <= y <= 9999 and 1 <= m <= 12 and 1 <= d <= dim(y, m)
     f = out.split(" ")
     if not valid:
         return [] if out == "err" else [("bad", "%d-%d-%d is not a date of the calendar but NewDate accepted it: %s" % (y, m, d, out))]
-    if f[0] != "ok" or len(f) != 24:
+    basic = cmd == "cal-basic"
+    if f[0] != "ok" or len(f) != (10 if basic else 24):
         return [("bad", "valid date %d-%d-%d: unexpected output %r" % (y, m, d, out))]
+    if basic:   # same layout with the PlusDays / Period() / Previous() fields left out
+        f = f[:5] + [None] * 14 + f[5:]
     probs = []
     o = ordinal(y, m, d)
     iy, iw, wd = iso(y, m, d)
@@ -144,7 +148,7 @@ def date_problems(req, out, record_hashes=True):
     q = (m - 1) // 3 + 1
     if f[4] != str(q):
         probs.append(("bad", "quarter of %s is %d, got %s" % (show((y, m, d)), q, f[4])))
-    for i, n in enumerate(PLUS):
+    for i, n in enumerate([] if basic else PLUS):
         want = from_ordinal(o + n)
         got = f[5 + i]
         if want is None:
@@ -153,7 +157,7 @@ def date_problems(req, out, record_hashes=True):
         elif got != show(want):
             probs.append(("bad", "%s plus %d days is %s, got %s" % (show((y, m, d)), n, show(want), got)))
     exp = expected_periods(y, m, d)
-    for k in range(4):
+    for k in range(0 if basic else 4):
         got = f[11 + k]
         e = exp[k]
         if not (e[0] <= o <= e[1]):
@@ -318,6 +322,12 @@ def gen_dates(tier, rng):
         out.append("cal-date %d 2 30" % y)
         out.append("cal-date %d 1 32" % y)
     out += ["cal-date -1 12 31", "cal-date 10000 1 1", "cal-date -1 1 1", "cal-date 10000 12 31"]
+    # the dates whose cal-date line carries known finding K4: compare everything that cannot panic separately
+    for m in range(1, 13):
+        for d in range(1, dim(0, m) + 1):
+            out.append("cal-basic 0 %d %d" % (m, d))
+    for d in range(20, 32):
+        out.append("cal-basic 9999 12 %d" % d)
     return out
 
 
